@@ -161,6 +161,76 @@ def indep_gruneisen(phs, vols, qpt):
     return out, lam
 
 
+
+def _cflat(a):
+    a = np.asarray(a, dtype=complex).ravel()
+    return " ".join("%s %s" % (Q(z.real), Q(z.imag)) for z in a)
+
+
+def gv_pipeline_requests(ph, qpt, with_symmetry):
+    """Requests for the model of GroupVelocity._calculate_group_velocity_at_q fed with the implementation's own eigh results."""
+    from phonopy.phonon.degeneracy import degenerate_sets
+    from phonopy.phonon.group_velocity import GroupVelocity
+
+    sym = ph.primitive_symmetry if with_symmetry else None
+    gvo = GroupVelocity(ph.dynamical_matrix, symmetry=sym, frequency_factor_to_THz=ph.unit_conversion_factor)
+    gvo.run([qpt])
+    gv_impl = gvo.group_velocities[0].copy()
+    dm = ph.dynamical_matrix
+    dm.run(qpt)
+    eigvals, eigvecs = np.linalg.eigh(dm.dynamical_matrix)
+    eigvals = eigvals.real
+    freqs = np.sqrt(abs(eigvals)) * np.sign(eigvals) * gvo._factor
+    deg = degenerate_sets(freqs)
+    ddms = gvo._get_dD(np.array(qpt))
+    ddm3 = gvo._ddm.d_dynamical_matrix.copy()
+    d = len(freqs)
+    us, hyp = [], 0.0
+    for st in deg:
+        es = eigvecs[:, st]
+        P = np.dot(es.T.conj(), np.dot(ddms[0], es))
+        mu, U = np.linalg.eigh(P)
+        us.append(U)
+        Ph = (P + P.conj().T) / 2
+        hyp = max(hyp, np.abs(U.conj().T @ U - np.eye(len(st))).max(), np.abs(Ph @ U - U * mu).max() / max(1.0, np.abs(P).max()))
+    # the model groups the bands itself from the frequency array (degenerate_sets(freqs), tolerance 1e-4 THz);
+    # the harness only supplies one eigh result per set of that grouping
+    parts = ["gvfull", str(d), _flat(freqs), Q(1e-4), str(len(deg)), " ".join(str(len(st)) for st in deg),
+             " ".join(_cflat(U) for U in us), _cflat(eigvecs), _cflat(ddm3), Q(gvo._factor), Q(gvo._cutoff_frequency)]
+    cert = None
+    nsel = 0
+    if with_symmetry:
+        ops = np.array(sym.reciprocal_operations, dtype=int)
+        B = np.array(gvo._reciprocal_lattice, dtype="double")
+        Binv = np.linalg.inv(B)
+        qbz = qpt - np.rint(qpt)
+        tol = sym.tolerance
+        lg = [r for r in ops if (np.abs(qbz - np.dot(r, qbz)) < tol).all()]
+        nsel = len(lg)
+        parts += ["1", str(len(ops)), " ".join(map(str, ops.ravel())), _flat(B), _flat(Binv), _flat(qbz), Q(tol)]
+        tab = []
+        for rs in lg:
+            for rt in lg:
+                pr = rs @ rt
+                u = [k for k, ru in enumerate(lg) if (ru == pr).all()]
+                tab.append(u[0] if u else len(lg))
+        cert = "lgcert %d %s %s" % (len(lg), " ".join(map(str, np.array(lg).ravel())), " ".join(map(str, tab)))
+    else:
+        parts.append("0")
+    return " ".join(parts), gv_impl, cert, nsel, hyp, [len(st) for st in deg]
+
+
+
+def pick_smat(rng, k, max_det=8):
+    """Supercell matrix; every other call a non-symmetric one (S != S^T)."""
+    mats = gen.supercell_matrices(rng, max_det=max_det, count=20)
+    if k % 2 == 1:
+        ns_ = [m for m in mats if (np.array(m) != np.array(m).T).any()]
+        if ns_:
+            return rng.choice(ns_)
+    return rng.choice(mats)
+
+
 def rand_q(rng, kind):
     if kind == "gamma":
         return np.zeros(3)
@@ -219,7 +289,7 @@ def main(run):
         "(lang='C', lang='Py', DynamicalMatrix.run) vs Lean model at exact rationals (all entries, 1e-9*scale). Non-trivial = q != 0 "
         "and the supercell has images (ns > np). Oracle: 3-level Richardson central differences (h=4e-4 1/Angstrom) of the "
         "implementation's own D(q) vs analytic derivative (%g*scale); group velocities vs central differences of the reported "
-        "frequencies for modes with f > %g THz and band gap > %g THz; PhonopyGruneisen on uniformly scaled force constants vs "
+        "frequencies for modes with f > %g THz and band gap > %g THz, plus designated long-wavelength points (|q| = 0.002, 0.004, 0.008 r.l.u. on rocksalt, bct, hcp; modes farther than 1.2e-4 THz from every other band and above the 1e-4 THz cutoff, adaptive step); PhonopyGruneisen on uniformly scaled force constants vs "
         "closed form, and mesh symmetry on/off moments." % (TOL_NUM, FMIN, GAP))
     run.cov["trusted_base"] = [
         "Lean 4.33 kernel; Mathlib v4.33; axioms per theorem in coverage.theorems",
@@ -240,14 +310,14 @@ def main(run):
 
     lines, meta = [], []
     max_ns = 24 if thorough else 12
-    ncases = 160 if thorough else 20
+    ncases = 320 if thorough else 20
     made = attempts = 0
     f15_hits = 0
     while made < ncases and attempts < 20 * ncases:
         attempts += 1
         name = rng.choice(CELLS)
         cell = make_cell(name)
-        smat = rng.choice(gen.supercell_matrices(rng, max_det=8, count=14))
+        smat = pick_smat(rng, attempts)
         ns = len(cell) * int(round(np.linalg.det(smat)))
         if ns > max_ns or ns < 2:
             continue
@@ -286,6 +356,7 @@ def main(run):
         nontrivial = ns > npa and np.abs(qpt).max() > 0
         run.case(("ddm", name, np.array(smat).tolist(), fckind, qpt.tolist(), with_nac, fc.tobytes()), nontrivial=nontrivial)
         run.count("cell %s" % name)
+        run.count("supercell matrix %s" % ("non-symmetric" if (np.array(smat) != np.array(smat).T).any() else "symmetric"))
         run.count("fc %s" % fckind)
         run.count("q %s" % qkind)
         run.count("nac" if with_nac else "no-nac")
@@ -319,14 +390,14 @@ def main(run):
                 dict(info, fc_array=fc.tolist()))
 
     # ---------------- group velocities: analytic = gradient of the reported frequencies
-    ngv = 40 if thorough else 6
+    ngv = 80 if thorough else 6
     gv_lines, gv_meta = [], []
     done = tries = 0
     while done < ngv and tries < 10 * ngv:
         tries += 1
         name = rng.choice(CELLS)
         cell = make_cell(name)
-        smat = rng.choice(gen.supercell_matrices(rng, max_det=8, count=14))
+        smat = pick_smat(rng, tries)
         ns = len(cell) * int(round(np.linalg.det(smat)))
         if ns > 32 or ns < 2:
             continue
@@ -389,6 +460,20 @@ def main(run):
                 run.violation("GroupVelocity(q_length=1e-5)", "fd-vs-analytic", "finite-difference group velocity %s vs analytic %s" % (
                     gv_fd[nu].tolist(), gv[nu].tolist()), info)
         run.count("oracle-gv-fd-option", section="oracle")
+        # the finite-difference arrays themselves against the model of _get_dD_FD
+        from phonopy.phonon.group_velocity import GroupVelocity as _GV
+        gfd = _GV(ph2.dynamical_matrix, q_length=1e-5, frequency_factor_to_THz=ph2.unit_conversion_factor)
+        dfd = gfd._get_dD_FD(np.array(qpt))
+        kdir = rng.randrange(4)
+        dqc = gfd._directions[kdir] * gfd._q_length
+        dq_ = np.dot(gfd._reciprocal_lattice_inv, dqc)
+        dmx = ph2.dynamical_matrix
+        dmx.run(qpt + dq_)
+        Dp_ = dmx.dynamical_matrix.copy()
+        dmx.run(qpt - dq_)
+        Dm_ = dmx.dynamical_matrix.copy()
+        gv_lines.append("fdd %d %s %s %s" % (len(f0), Q(gfd._q_length), _cflat(Dp_), _cflat(Dm_)))
+        gv_meta.append(("fdd", dict(info, direction=int(kdir)), dfd[kdir]))
         # correspondence of the gv formula: feed eigh + C derivative to the model
         dm = ph.dynamical_matrix
         ddm = DerivativeOfDynamicalMatrix(dm)
@@ -412,7 +497,7 @@ def main(run):
         done += 1
 
     # ---------------- Grueneisen parameters
-    ngr = 24 if thorough else 4
+    ngr = 48 if thorough else 4
     gr_lines, gr_meta = [], []
     t = -1
     gtries = 0
@@ -420,7 +505,9 @@ def main(run):
         gtries += 1
         name = rng.choice(["cscl", "nacl_prim", "zincblende_prim", "hcp", "bct", "rhombo", "sc1", "mono_P"])
         cell = make_cell(name)
-        smat = np.diag(rng.choice([[2, 2, 2], [2, 2, 1], [2, 1, 2], [3, 1, 1], [1, 2, 2]]))
+        smat = rng.choice([np.diag([2, 2, 2]), np.diag([2, 2, 1]), np.diag([2, 1, 2]), np.diag([3, 1, 1]), np.diag([1, 2, 2]),
+                           np.array([[1, 1, 0], [-1, 1, 0], [0, 0, 1]]), np.array([[1, 1, 0], [-1, 1, 0], [0, 0, 2]]),
+                           np.array([[2, 1, 0], [0, 2, 0], [0, 0, 1]]), np.array([[1, -1, 0], [1, 2, 0], [0, 0, 1]])])
         g = rng.choice([0.5, 1.0, 1.7, 2.3, -0.4])
         dv = rng.choice([0.01, 0.02, 0.005])
         dvm = dv * rng.choice([1.0, 1.0, 0.5])  # asymmetric triples too
@@ -449,8 +536,8 @@ def main(run):
             gr = PhonopyGruneisen(phs[0], phs[1], phs[2])
             gr.set_mesh(mesh, is_mesh_symmetry=msym, is_gamma_center=rng.choice([True, False]) if False else False)
             res[msym] = gr.get_mesh() + (gr._mesh.get_eigenvalues(),)
-        info = dict(cell=name, smat=smat.tolist(), g=g, volumes=[float(v) for v in vols], mesh=list(map(int, mesh)), uniform=uniform)
-        run.case(("grun", name, smat.tolist(), g, dv, dvm, tuple(mesh), uniform), nontrivial=True)
+        info = dict(cell=name, smat=np.array(smat).tolist(), g=g, volumes=[float(v) for v in vols], mesh=list(map(int, mesh)), uniform=uniform)
+        run.case(("grun", name, np.array(smat).tolist(), g, dv, dvm, tuple(mesh), uniform), nontrivial=True)
         run.count("gruneisen-%s" % ("uniform-scaling" if uniform else "pair-potential-volumes"))
         qs, w, fr, evs, gam, lam = res[True]
         qs_f, w_f, fr_f, evs_f, gam_f, lam_f = res[False]
@@ -500,7 +587,26 @@ def main(run):
         path = np.array([q0 + (q1 - q0) * s_ for s_ in np.linspace(0, 1, 5)])
         grb = PhonopyGruneisen(phs[0], phs[1], phs[2])
         grb.set_band_structure([path])
-        bq, _, bf, _, bg = grb.get_band_structure()
+        bq, _, bf, bev, bg = grb.get_band_structure()
+        blam = grb._band_structure._paths[0][3]
+        # band-structure path into the correspondence: the formula on the (band-connected) eigenvectors it reports
+        for iq in rng.sample(range(len(path)), 2):
+            lam_q = blam[iq]
+            for nu in range(len(lam_q)):
+                gaps = np.abs(np.delete(lam_q, nu) - lam_q[nu]) if len(lam_q) > 1 else np.array([1e9])
+                if abs(lam_q[nu]) < 1e-6 or gaps.min() < 1e-3:
+                    continue
+                Dm_, Dp_ = phs[2].dynamical_matrix, phs[1].dynamical_matrix
+                Dm_.run(path[iq])
+                Dp_.run(path[iq])
+                evec = bev[0][iq][:, nu]
+                gr_lines.append("grun %d %s %s %s %s %s %s %s" % (
+                    len(lam_q), Q(vols[0]), Q(vols[1]), Q(vols[2]), Q(lam_q[nu]),
+                    " ".join("%s %s" % (Q(z.real), Q(z.imag)) for z in evec),
+                    " ".join("%s %s" % (Q(z.real), Q(z.imag)) for z in Dm_.dynamical_matrix.ravel()),
+                    " ".join("%s %s" % (Q(z.real), Q(z.imag)) for z in Dp_.dynamical_matrix.ravel())))
+                gr_meta.append(("grun", dict(info, q=path[iq].tolist(), band=nu, front_end="band_structure"), float(bg[0][iq][nu])))
+                break
         for iq in range(len(path)):
             ref, lam_i = indep_gruneisen(phs, vols, path[iq])
             if ref is None:
@@ -542,13 +648,13 @@ def main(run):
     # ---------------- compact force constants; q_direction argument (Wang NAC)
     from phonopy.harmonic.force_constants import full_fc_to_compact_fc
 
-    nextra = 40 if thorough else 6
+    nextra = 80 if thorough else 6
     done = tries = 0
     while done < nextra and tries < 10 * nextra:
         tries += 1
         name = rng.choice(CELLS)
         cell = make_cell(name)
-        smat = rng.choice(gen.supercell_matrices(rng, max_det=8, count=14))
+        smat = pick_smat(rng, tries)
         ns = len(cell) * int(round(np.linalg.det(smat)))
         if ns > (24 if thorough else 12) or ns < 2:
             continue
@@ -607,15 +713,70 @@ def main(run):
                 meta.append(("ddmall", inf2, 3 * len(ph.primitive), dict(C=c1, Py=p1, D=None)))
         done += 1
 
+    # ---------------- designated long-wavelength q-points: nearly degenerate acoustic branches
+    # (bands are grouped with a tolerance of 1e-4 THz on the FREQUENCIES; a mode farther than that from every other band
+    # is non-degenerate and its group velocity must be the gradient of its own frequency)
+    lw_cases = [("nacl_prim", np.diag([2, 2, 2]), [0.37, 0.81, -0.45]), ("bct", np.diag([2, 2, 2]), [0.52, -0.23, 0.82]),
+                ("hcp", np.diag([2, 2, 1]), [0.61, 0.27, 0.74])]
+    for (name, smat, dvec) in lw_cases:
+        cell = make_cell(name)
+        ph = Phonopy(cell, supercell_matrix=smat, primitive_matrix="P", log_level=0)
+        ph.force_constants = gen.pair_fc(ph.supercell, 4.5)
+        lat = ph.primitive.cell
+        reclat = np.linalg.inv(lat)
+        dvec = np.array(dvec) / np.linalg.norm(dvec)
+        for qlen in (0.002, 0.004, 0.008):
+            qpt = dvec * qlen
+            ph.run_qpoints([qpt], with_group_velocities=True)
+            qd_ = ph.get_qpoints_dict()
+            f0, gv = qd_["frequencies"][0].copy(), qd_["group_velocities"][0].copy()
+            info = dict(cell=name, smat=smat.tolist(), q=qpt.tolist(), q_length_rlu=qlen)
+            qc = np.linalg.norm(reclat @ qpt)
+            nm = 0
+            for nu in range(len(f0)):
+                gaps = np.abs(np.delete(f0, nu) - f0[nu])
+                if f0[nu] <= 1e-4 or gaps.min() <= 1.2e-4:
+                    run.count("oracle-gv-long-wavelength-skipped-mode(gap <= 1.2e-4 THz or below gv cutoff)", section="oracle")
+                    continue
+                # step: well inside |q| and small against the distance to the next band
+                h = min(qc / 40.0, 0.02 * gaps.min() / max(1.0, np.abs(gv).max()))
+                grad = np.zeros(3)
+                for a_ in range(3):
+                    e = np.zeros(3)
+                    e[a_] = 1
+                    dq = lat @ e
+
+                    def fr(hh):
+                        ph.run_qpoints([qpt + hh * dq])
+                        return ph.get_qpoints_dict()["frequencies"][0][nu]
+
+                    c1 = (fr(h) - fr(-h)) / (2 * h)
+                    c2 = (fr(h / 2) - fr(-h / 2)) / h
+                    grad[a_] = (4 * c2 - c1) / 3
+                nm += 1
+                run.count("oracle-gv-long-wavelength-mode", section="oracle")
+                if np.abs(grad - gv[nu]).max() > 1e-3 * max(1.0, np.abs(gv[nu]).max()):
+                    run.violation("Phonopy.run_qpoints(with_group_velocities=True)", "nondegenerate-mode-long-wavelength",
+                                  "group velocity %s differs from the finite-difference gradient %s of the mode frequency (band %d, f=%.5f THz, "
+                                  "nearest band %.3g THz away, |q|=%g r.l.u.)" % (gv[nu].tolist(), grad.tolist(), nu, f0[nu], gaps.min(), qlen), info)
+            line_, gv_i, cert, nsel, hyp, dsz = gv_pipeline_requests(ph, qpt, False)
+            if hyp > 1e-8:
+                run.broke("correspondence", "eigh certificate of the restricted derivative fails numerically (%.3g)" % hyp, info)
+            gv_lines.append(line_)
+            gv_meta.append(("gvfull", dict(info, symmetrised=False, degenerate_set_sizes=dsz), (gv_i, 0)))
+            run.case(("gv-lw", name, smat.tolist(), qpt.tolist()), nontrivial=nm > 0)
+            run.count("gv-long-wavelength case")
+
     # ---------------- group velocities at high-symmetry q (little-group symmetrisation), symmetric crystals
-    nhs = 40 if thorough else 6
+    nhs = 80 if thorough else 6
     done = tries = 0
     while done < nhs and tries < 10 * nhs:
         tries += 1
         name = rng.choice(["sc1", "cscl", "nacl_prim", "zincblende_prim", "bct", "hcp"])
         cell = make_cell(name)
-        smat = np.diag(rng.choice([[2, 2, 2], [2, 2, 1], [3, 3, 3]]))
-        if len(cell) * int(np.prod(smat.diagonal())) > 32:
+        smat = rng.choice([np.diag([2, 2, 2]), np.diag([2, 2, 1]), np.diag([3, 3, 3]), np.array([[1, 1, 0], [-1, 1, 0], [0, 0, 1]]),
+                           np.array([[1, 1, 0], [-1, 1, 0], [0, 0, 2]]), np.array([[1, -1, 0], [1, 2, 0], [0, 0, 1]])])
+        if len(cell) * int(round(abs(np.linalg.det(smat)))) > 32:
             continue
         ph = Phonopy(cell, supercell_matrix=smat, primitive_matrix="P", log_level=0)
         if len(ph.symmetry.pointgroup_operations) != len(ph.primitive_symmetry.pointgroup_operations):
@@ -646,7 +807,7 @@ def main(run):
             qb = qpt - np.rint(qpt)
             if (np.abs(qb - np.dot(r_, qb)) < 1e-5).all():
                 nrot += 1
-        info = dict(cell=name, smat=smat.tolist(), q=qpt.tolist(), little_group_order=nrot)
+        info = dict(cell=name, smat=np.array(smat).tolist(), q=qpt.tolist(), little_group_order=nrot)
         nm = 0
         for nu in range(len(f0)):
             gaps = np.abs(np.delete(f0, nu) - f0[nu]) if len(f0) > 1 else np.array([1e9])
@@ -659,7 +820,19 @@ def main(run):
                 run.violation("Phonopy.run_qpoints(with_group_velocities=True)", "nondegenerate-mode-high-symmetry-q",
                               "symmetrised group velocity %s differs from the finite-difference gradient %s (band %d, little group of order %d)" % (
                                   gv[nu].tolist(), grad[nu].tolist(), nu, nrot), info)
-        run.case(("gv-hs", name, smat.tolist(), qpt.tolist()), nontrivial=nm > 0 and nrot > 1)
+        # the whole pipeline (degenerate-set rotation, scaling, little-group average) against the model
+        for wsym in (True, False):
+            line_, gv_i, cert, nsel, hyp, dsz = gv_pipeline_requests(ph, qpt, wsym)
+            if wsym and np.abs(gv_i - gv).max() > 1e-12 * max(1.0, np.abs(gv).max()):
+                run.violation("GroupVelocity.run", "api-vs-class", "Phonopy.run_qpoints and GroupVelocity give different group velocities", info)
+            if hyp > 1e-8:
+                run.broke("correspondence", "eigh certificate of the restricted derivative fails numerically (%.3g)" % hyp, info)
+            gv_lines.append(line_)
+            gv_meta.append(("gvfull", dict(info, symmetrised=wsym, degenerate_set_sizes=dsz), (gv_i, nsel)))
+            if cert is not None:
+                gv_lines.append(cert)
+                gv_meta.append(("lgcert", dict(info, little_group_order=nsel), None))
+        run.case(("gv-hs", name, np.array(smat).tolist(), qpt.tolist()), nontrivial=nm > 0 and nrot > 1)
         run.count("gv-high-symmetry case (little group order %d)" % nrot)
         done += 1
 
@@ -690,6 +863,35 @@ def main(run):
             run.count("loop-vs-closed-form", section="correspondence")
             if not np.array_equal(mod["C"], mod["Cclosed"]):
                 run.broke("correspondence", "in-place Hermitisation loop differs from its closed form in the model", info)
+        elif kind == "gvfull":
+            gv_i, nsel = m_[2]
+            if line == "bad-op":
+                run.broke("correspondence", "model rejected input (gvfull)", info)
+                continue
+            vals, cnt = line.split("|")
+            mod = np.array([float(Fraction(t)) for t in vals.split()]).reshape(gv_i.shape)
+            ncmp += 1
+            run.count("gv-pipeline%s" % ("-symmetrised" if info["symmetrised"] else ""), section="correspondence")
+            if int(cnt) != nsel:
+                run.broke("correspondence", "little group: model selects %s operations, implementation %d" % (cnt.strip(), nsel), info)
+            if np.abs(mod - gv_i).max() > TOL * max(1.0, np.abs(gv_i).max()):
+                run.broke("correspondence", "gv pipeline: implementation differs from model by %.3g" % np.abs(mod - gv_i).max(), info)
+        elif kind == "lgcert":
+            run.count("little-group-certificates", section="correspondence")
+            if line != "true":
+                run.broke("correspondence", "little group of q is not closed under multiplication (certificate groupTableOk = %s)" % line, info)
+                run.violation("GroupVelocity._symmetrize_group_velocity", "little-group-not-a-group", "selected operations do not form a group", info)
+        elif kind == "fdd":
+            ref = m_[2]
+            if line == "bad-op":
+                run.broke("correspondence", "model rejected input (fdd)", info)
+                continue
+            v = np.array([float(Fraction(t)) for t in line.split()]).reshape(ref.shape + (2,))
+            mod = v[..., 0] + 1j * v[..., 1]
+            ncmp += 1
+            run.count("fd-dD", section="correspondence")
+            if np.abs(mod - ref).max() > TOL * max(1e-6, np.abs(ref).max()):
+                run.broke("correspondence", "finite-difference dD: implementation differs from model by %.3g" % np.abs(mod - ref).max(), info)
         else:
             ref = m_[2]
             if line == "bad-op":
